@@ -1,0 +1,17 @@
+//go:build verif
+
+package gocvss20
+
+// Verification hooks, compiled only with the "verif" build tag.
+// VerifHook, when set by a test harness, observes the life cycle of the pooled
+// split buffer inside ParseVector: "get" (buffer taken from the pool), "split"
+// (vector split into it), "read" (one element about to be consumed) and "put"
+// (buffer about to go back to the pool). It may block, which lets a harness
+// force a particular interleaving of concurrent calls.
+var VerifHook func(ev string, buf any, s string)
+
+func vhook(ev string, buf any, s string) {
+	if h := VerifHook; h != nil {
+		h(ev, buf, s)
+	}
+}
